@@ -77,6 +77,18 @@ impl Engine {
         })
     }
 
+    /// a channel id that is certainly not the configured one (the configuration may have moved to any number)
+    pub fn other_channel(&self, offset: u64) -> String {
+        let mut n = self.sw.channel.wrapping_add(offset);
+        loop {
+            let c = format!("channel-{}", n);
+            if c != self.m.cfg.channel && !self.w.st.channels.contains_key(&c) {
+                return c;
+            }
+            n = n.wrapping_add(7919);
+        }
+    }
+
     pub fn n_users(&self) -> usize {
         (self.sw.users as usize).clamp(1, self.a.users.len())
     }
@@ -615,6 +627,10 @@ impl Engine {
         let foreign = matches!(&got, Some(Value::Array(a)) if a.iter().any(|r| r["user"].as_str() != Some(user)));
         if g != stored || foreign {
             self.v("C17", "unstake_requests_by_user", format!("UnstakeRequests({}) = {:?} but the stored open requests of that user are {:?}", user, g, stored));
+        } else if g != expect {
+            // the query is faithful to storage, but what it reports is not what the account's unstakes and
+            // withdrawals amount to: the user-facing statement of C17 fails as well
+            self.v("C17", "unstake_requests_follow_history", format!("UnstakeRequests({}) = {:?} but that account's unstakes and withdrawals amount to {:?}", user, g, expect));
         }
         if stored != expect {
             let (p, c) = if prop == "C17" { ("C05", "requests_match_history") } else { (prop, clause) };
@@ -937,7 +953,7 @@ impl Engine {
         let other_role = if role_native == self.m.cfg.staker { self.m.cfg.collector.clone() } else { self.m.cfg.staker.clone() };
         let (native_sender, channel, genuine): (String, String, bool) = match mode {
             Deliver::Exact | Deliver::Short(_) | Deliver::Long(_) => (role_native.to_string(), ch.clone(), true),
-            Deliver::OtherChannel => (role_native.to_string(), format!("channel-{}", self.sw.channel + 1000), false),
+            Deliver::OtherChannel => (role_native.to_string(), self.other_channel(1000), false),
             Deliver::OtherAccount => (self.a.nothers[(amount % 3) as usize].clone(), ch.clone(), false),
             Deliver::RoleSwap => {
                 if other_role == role_native {
@@ -1162,7 +1178,7 @@ impl Engine {
 
     fn op_stray(&mut self, k: StrayKind) {
         let ch = self.m.cfg.channel.clone();
-        let other = format!("channel-{}", self.sw.channel + 1);
+        let other = self.other_channel(1);
         let s = self.s_addr();
         // a sequence of ours that is still awaiting its acknowledgement if there is one, else any still recorded
         let open_seq: Option<u64> = self
